@@ -10,7 +10,7 @@ def write(prop, tier, seed, units, wall_s, violations, assumptions, extra=None, 
     fns = sorted({f for u in units for f in u.get("functions", [])})
     samples = []
     for u in units[:60]:
-        samples.append({k: u[k] for k in ("engine", "name", "status", "bounds", "desc", "obligations", "solver_s", "model") if k in u and u[k] not in (None, "")})
+        samples.append({k: u[k] for k in ("engine", "name", "status", "bounds", "desc", "obligations", "solver_s", "model", "cross_check", "obligation_kinds", "validated") if k in u and u[k] not in (None, "")})
     cov = {
         "evaluations": evaluations,
         "distinct_nontrivial": nontrivial,
@@ -27,6 +27,7 @@ def write(prop, tier, seed, units, wall_s, violations, assumptions, extra=None, 
         "units_failed": sum(1 for u in units if u.get("status") == "failed"),
         "solver_time_s": round(sum(float(u.get("solver_s", 0)) for u in units), 3),
         "traces_validated_against_impl": sum(int(u.get("validated", 0)) for u in units),
+        "cross_checked_with_second_solver": {"queries": sum(int(u.get("cross_check", {}).get("queries", 0)) for u in units), "agree": sum(int(u.get("cross_check", {}).get("agree", 0)) for u in units)},
         "engines": sorted({u.get("engine", "") for u in units}),
         "exhaustive": False,
         "explanation": "bounded symbolic checking of the real code: the solver decides each obligation for all values inside the stated bounds; nothing is claimed outside them",
